@@ -59,8 +59,17 @@ def ports(F, R):
     field_order_last(R, F, 'iceoryx2::node::SharedNodeState', 'details_storage', why='node details are the last thing removed')
 
 
+# position of each closure parameter of BuilderWithServiceType::create/open when the rules were written
+# (used only when no parameter of that name exists any more: a rename must not change the verdict)
+_CLOSURE_POS = {'is_service_available': None, 'prepare_service_config': 5, 'generate_dynamic_config': 6, 'create_service_resource': 7,
+                'release_service_resource_ownership': 8, 'verify_service_configuration': 4, 'open_service_resource': 5}
+
+
 def closure_param_calls(fn, name):
-    return [s for s in fn.sites if s.is_call and re.search(r'Fn(Mut|Once)?(<.*>)?>?::call(_mut|_once)?$', s.callee or '') and fn.chain(s.args[0]).split('.')[0] == name]
+    idx = _CLOSURE_POS.get(name)
+    if idx is None:
+        idx = 4 if fn.id.endswith('::create') else 3
+    return lib.param_calls(fn, name, idx)
 
 
 def chain(R, fn, steps, why):
